@@ -92,7 +92,7 @@ Fixpoint stable_text (i : inline) : string :=
       if is_ref_url url then
         match lt with
         | WikiLinkPiped => go l
-        | _ => " @" +++ trim_end_matches MD url +++ " "
+        | _ => " @" +++ strip_md url +++ " "
         end
       else go l
   | Image _ _ l => go l
@@ -260,7 +260,7 @@ Fixpoint max_heading_depth (s : list sk) : nat :=
 (* ---------- per-note predicates -------------------------------------------------------- *)
 
 Definition note_blocks (c : libcase) (key : string) : option (list dblock) :=
-  match find (fun n => String.eqb (key_from_file_name (ni_name n)) key) (lc_notes c) with
+  match find (fun n => String.eqb (key_name (ni_name n)) key) (lc_notes c) with
   | Some n => match ni_blocks n with Ok bs => Some bs | Panic _ => None end
   | None => None
   end.
@@ -364,7 +364,7 @@ Definition p_atoms (c : libcase) (o : note_obs) : bool :=
   | _, _ => false
   end.
 Definition note_meta (c : libcase) (key : string) : option string :=
-  match find (fun n => String.eqb (key_from_file_name (ni_name n)) key) (lc_notes c) with
+  match find (fun n => String.eqb (key_name (ni_name n)) key) (lc_notes c) with
   | Some n => ni_meta n
   | None => None
   end.
@@ -484,7 +484,7 @@ Definition linked_titles_inert (c : libcase) (o : note_obs) : bool :=
       let d := key_parent (no_key o) in
       forallb (fun t => let '(k, u, _) := t in
                  negb (String.eqb k "ref") ||
-                 forallb (fun n => let key := key_from_file_name (ni_name n) in
+                 forallb (fun n => let key := key_name (ni_name n) in
                             negb (String.eqb key (from_rel_link_url u d) || String.eqb key (key_from_file_name u))
                             || note_title_inert n) (lc_notes c))
               (links_of bs)
@@ -507,7 +507,7 @@ Definition spec_corr (c : libcase) : list N :=
       flag 7 (forallb (fun n =>
         match ni_blocks n with
         | Ok bs =>
-            let key := key_from_file_name (ni_name n) in
+            let key := key_name (ni_name n) in
             match alookup key (gr_keys g) with
             | Some root =>
                 match collect_raw (gr_arena g) root with
